@@ -76,6 +76,16 @@ CLAIMS = {
              "address. NOT decided: proportionality and independence (relational, numeric).",
         technique="flow-sensitive value provenance (reaching definitions) + operand-role matching",
         ref="6/C15"),
+    "C07": dict(
+        text="Decides per-operation agreement for both unbond handlers (discovered structurally under hook variant x registered token): "
+             "the amount added to the batch total is the amount added (never overwritten) to the sender's wait-list entry of the right "
+             "token type, keyed by the batch id as loaded; Burn burns exactly the amount sent on the token that sent the hook; the wait "
+             "list has exactly three kinds of writers (unbond store, owner's withdraw remove, legacy migration); history copies the "
+             "totals before the roll-over zeroes them and bumps the id by one; query field fidelity; the token delivers "
+             "Cw20ReceiveMsg{sender: info.sender, amount}. Sum-over-users = batch total in every reachable state follows by induction "
+             "over operations (argued in DESIGN, not mechanised).",
+        technique="specialised call-graph exploration + ledger-delta shapes + value provenance on MIR",
+        ref="6/C07"),
 }
 
 NA = {
